@@ -149,6 +149,19 @@ Proof using HW.
   - exact (parse_url_base_ok dbg hp hpo hd ovr (Some b) input u HW IHb Hp).
 Qed.
 
+Theorem pj_cinv u : PJ u -> CInv dbg u.
+Proof using HW.
+  induction 1 as [ovr input u Hp | ovr b input u Rb IHb Hp].
+  - exact (parse_url_cinv dbg dbg hp hpo hd ovr None input u HW I Hp).
+  - exact (parse_url_cinv dbg dbg hp hpo hd ovr (Some b) input u HW (conj IHb (proj1 (pj_base_ok b Rb))) Hp).
+Qed.
+
+Theorem creach3_components_pj u : PJ u -> wfh u /\ components_clean dbg u.
+Proof using HW.
+  intros R. destruct (pj_cinv u R) as [[W HT] C]. split; [split; assumption|].
+  exact (comp_ok_components dbg u W C).
+Qed.
+
 Theorem pj_creach3 u : PJ u -> CReach3 u.
 Proof using HW.
   induction 1 as [ovr input u Hp | ovr b input u Rb IHb Hp].
